@@ -22,6 +22,11 @@ type KSCase struct {
 	GalNeg  bool       `json:"galNeg"` // ... times -1 (standard ring only)
 	InPlace bool       `json:"inPlace"`
 	Dirty   bool       `json:"dirty"` // a non-aliased output ciphertext holds stale data before the call
+	FlipNTT  bool `json:"flipNTT,omitempty"`  // the ciphertext is in the domain opposite to the parameters' NTTFlag (IsNTT set accordingly)
+	OutLevel int  `json:"outLevel,omitempty"` // level at which an out-of-place receiver is allocated (if above the ciphertext level)
+	OutDeg2  bool `json:"outDeg2,omitempty"`  // Relinearize into a receiver of degree 2
+	QPExtra  int  `json:"qpExtra,omitempty"`  // AutomorphismHoistedLazy: receiver with LevelP = key LevelP + qpExtra
+	Twice    bool `json:"twice,omitempty"`    // a second application with the same evaluator, key and receiver
 	Pat     string     `json:"pat"` // coefficient pattern of the key-switched polynomial: uniform | top | low
 	Seed    uint64     `json:"seed"`
 }
@@ -72,6 +77,13 @@ func genKS(t *rapid.T) KSCase {
 	c.InPlace = rapid.Bool().Draw(t, "inPlace")
 	c.Dirty = rapid.IntRange(0, 2).Draw(t, "dirty") == 0
 	c.Pat = []string{"uniform", "uniform", "top", "low"}[rapid.IntRange(0, 3).Draw(t, "pat")]
+	c.FlipNTT = rapid.IntRange(0, 3).Draw(t, "flipNTT") == 0
+	if rapid.IntRange(0, 2).Draw(t, "outAbove") == 0 {
+		c.OutLevel = rapid.IntRange(c.CtLevel, len(c.Params.Q)-1).Draw(t, "outLevel")
+	}
+	c.OutDeg2 = rapid.IntRange(0, 2).Draw(t, "outDeg2") == 0
+	c.QPExtra = rapid.IntRange(0, 2).Draw(t, "qpExtra")
+	c.Twice = rapid.IntRange(0, 2).Draw(t, "twice") == 0
 	c.Seed = rapid.Uint64().Draw(t, "seed")
 	return c
 }
@@ -132,15 +144,16 @@ func bitLen(q uint64) int { return new(big.Int).SetUint64(q).BitLen() }
 // freshCt builds an encryption of the integer vector m under the secret s at the given level: c1 uniform,
 // c0 = m + e - c1*s with |e| <= 3 (built by the harness so that the input noise is known exactly and the check does
 // not depend on rlwe.Encryptor, which is C03's subject).
-func freshCt(params rlwe.Parameters, s []*big.Int, ci bool, m []*big.Int, level int, rng *h.SplitMix, pat string) *rlwe.Ciphertext {
+func freshCt(params rlwe.Parameters, s []*big.Int, ci bool, m []*big.Int, level int, rng *h.SplitMix, pat string, isNTT bool) *rlwe.Ciphertext {
 	rl := params.RingQ().AtLevel(level)
 	n := len(m)
 	c1 := patVec(rng, n, moduli(rl), pat)
 	e := smallVec(rng, n, 3)
-	c0 := h.VecSub(h.VecAdd(m, e), ringMul(c1, s, ci))
+	c0 := h.VecSub(h.VecAdd(m, e), mulQ(c1, s, moduli(rl), ci))
 	ct := rlwe.NewCiphertext(params, 1, level)
-	ct.Value[0].CopyLvl(level, bigToPoly(rl, c0, ct.IsNTT))
-	ct.Value[1].CopyLvl(level, bigToPoly(rl, c1, ct.IsNTT))
+	ct.IsNTT = isNTT
+	ct.Value[0].CopyLvl(level, bigToPoly(rl, c0, isNTT))
+	ct.Value[1].CopyLvl(level, bigToPoly(rl, c1, isNTT))
 	return ct
 }
 
@@ -180,6 +193,31 @@ func digitsShort(s h.RLWESpec, k KeySpec, lvl int) bool {
 	return false
 }
 
+const keyNoPofP = "C04:gadget-product:key-LevelP=-1-under-params-with-P:w0:panic"
+
+// guardNoPofP runs f. For a key without auxiliary modulus (LevelP = -1, BaseTwoDecomposition = 0) under parameters that
+// do have P, the gadget product panics in ring.Decomposer.DecomposeAndSplit (listed finding): that class is run under
+// recover so that the guard disappears by itself once the defect is fixed.
+func guardNoPofP(s h.RLWESpec, k KeySpec, rec *h.Rec, f func() error) (skip bool, err error) {
+	if !(k.LevelP == -1 && len(s.P) > 0 && k.W == 0) {
+		return false, f()
+	}
+	var pv any
+	func() {
+		defer func() { pv = recover() }()
+		err = f()
+	}()
+	if pv == nil {
+		return false, err
+	}
+	msg := fmt.Sprintf("key switch with a key at LevelP=-1, BaseTwoDecomposition=0 under parameters with %d auxiliary primes panics: %v", len(s.P), pv)
+	if rec.Known(keyNoPofP, msg) {
+		rec.Class("known=" + keyNoPofP)
+		return true, nil
+	}
+	return true, h.Failf(keyNoPofP, "%s", msg)
+}
+
 const keyTernaryPanic = "C04:keygen:ternary-Xe-keylevel<max:panic"
 
 // guardKeygen runs a key generation. For a ternary error distribution and a key level below the maximum the generation
@@ -214,101 +252,44 @@ func runKS(c KSCase, rec *h.Rec) error {
 	}
 	rng := h.NewSplitMix(c.Seed ^ 0xc04)
 	ringQ := params.RingQ()
-	rl := ringQ.AtLevel(c.CtLevel)
-	Q := h.ProdU(moduli(rl))
+	lvl := c.CtLevel
+	rl := ringQ.AtLevel(lvl)
+	qs := moduli(rl)
+	Q := h.ProdU(qs)
 	N := s.N()
+	isNTT := s.NTT != c.FlipNTT // domain of the ciphertext (the IsNTT flag is set accordingly)
+	outLevel := lvl
+	if c.OutLevel > lvl && c.OutLevel < len(s.Q) && !c.InPlace {
+		outLevel = c.OutLevel
+	}
 
 	kgen := rlwe.NewKeyGenerator(params)
 	sk := kgen.GenSecretKeyNew()
 	sB := skToBig(ringQ, sk)
 	evkp := c.Key.evk()
 
-	// target secret, key material and the expected phase of the result
+	// ---- key material (generated once, used by every round)
 	var (
-		want   []*big.Int // expected plaintext (integers, any representative mod Q)
-		sOut   = sB
-		inErr  = int64(3) // noise already present in the input ciphertext
-		out    *rlwe.Ciphertext
-		galEl  uint64
-		evkSet *rlwe.MemEvaluationKeySet
+		sOut  = sB
+		galEl uint64
+		evk   *rlwe.EvaluationKey
+		eval  *rlwe.Evaluator
 	)
-	m := uniformVec(rng, N, Q)
-
 	switch {
 	case c.Op == "apply" || c.Op == "gadget" || c.Op == "gadgetHoisted":
 		skOut := kgen.GenSecretKeyNew()
 		sOut = skToBig(ringQ, skOut)
-		var evk *rlwe.EvaluationKey
 		if skip, err := guardKeygen(s, c.Key, rec, func() { evk = kgen.GenEvaluationKeyNew(sk, skOut, evkp) }); skip || err != nil {
 			return err
 		}
-		if err := checkShape(s, c.Key, params, evk, rec); err != nil {
-			return err
-		}
-		if err := expandIfCompressed(params, evk, c.Key); err != nil {
-			return err
-		}
-		eval := rlwe.NewEvaluator(params, nil)
-		if c.Op == "apply" {
-			ct := freshCt(params, sB, s.CI, m, c.CtLevel, rng, c.Pat)
-			out = ct
-			if !c.InPlace {
-				out = newOut(params, c.CtLevel, c.Dirty, rng)
-			}
-			if err := eval.ApplyEvaluationKey(ct, evk, out); err != nil {
-				return h.Failf("C04:apply:error", "ApplyEvaluationKey: %v", err)
-			}
-			want = m
-		} else {
-			// raw gadget product of a uniform polynomial: result decrypts under sOut to cx * sIn
-			cxB := patVec(rng, N, moduli(rl), c.Pat)
-			out = newOut(params, c.CtLevel, c.Dirty, rng)
-			cx := bigToPoly(rl, cxB, out.IsNTT)
-			if c.Op == "gadget" {
-				eval.GadgetProduct(c.CtLevel, cx, &evk.GadgetCiphertext, out)
-			} else {
-				eval.DecomposeNTT(c.CtLevel, c.Key.LevelP, c.Key.LevelP+1, cx, out.IsNTT, eval.BuffDecompQP)
-				eval.GadgetProductHoisted(c.CtLevel, eval.BuffDecompQP, &evk.GadgetCiphertext, out)
-			}
-			want = ringMul(cxB, sB, s.CI)
-			inErr = 0
-		}
-
+		eval = rlwe.NewEvaluator(params, nil)
 	case c.Op == "relin":
 		var rlk *rlwe.RelinearizationKey
 		if skip, err := guardKeygen(s, c.Key, rec, func() { rlk = kgen.GenRelinearizationKeyNew(sk, evkp) }); skip || err != nil {
 			return err
 		}
-		if err := checkShape(s, c.Key, params, &rlk.EvaluationKey, rec); err != nil {
-			return err
-		}
-		if err := expandIfCompressed(params, &rlk.EvaluationKey, c.Key); err != nil {
-			return err
-		}
-		eval := rlwe.NewEvaluator(params, rlwe.NewMemEvaluationKeySet(rlk))
-		// degree-2 ciphertext built by the harness: c1, c2 uniform, c0 = m + e - c1 s - c2 s^2
-		c1 := uniformVec(rng, N, Q)
-		c2 := patVec(rng, N, moduli(rl), c.Pat)
-		e := smallVec(rng, N, 3)
-		inErr = 3
-		s2 := ringMul(sB, sB, s.CI)
-		c0 := h.VecSub(h.VecAdd(m, e), h.VecAdd(ringMul(c1, sB, s.CI), ringMul(c2, s2, s.CI)))
-		ct := rlwe.NewCiphertext(params, 2, c.CtLevel)
-		for i, v := range [][]*big.Int{c0, c1, c2} {
-			ct.Value[i].CopyLvl(c.CtLevel, bigToPoly(rl, v, ct.IsNTT))
-		}
-		out = ct
-		if !c.InPlace {
-			out = newOut(params, c.CtLevel, c.Dirty, rng)
-		}
-		if err := eval.Relinearize(ct, out); err != nil {
-			return h.Failf("C04:relin:error", "Relinearize: %v", err)
-		}
-		if out.Degree() != 1 {
-			return h.Failf("C04:relin:degree", "output degree %d after Relinearize", out.Degree())
-		}
-		want = m
-
+		evk = &rlk.EvaluationKey
+		eval = rlwe.NewEvaluator(params, rlwe.NewMemEvaluationKeySet(rlk))
 	case autoOp(c.Op):
 		nth := ringQ.NthRoot()
 		galEl = galois(c.GalK, c.GalNeg, nth)
@@ -324,107 +305,238 @@ func runKS(c KSCase, rec *h.Rec) error {
 		if skip, err := guardKeygen(s, c.Key, rec, func() { gk = kgen.GenGaloisKeyNew(galEl, sk, evkp) }); skip || err != nil {
 			return err
 		}
-		if err := checkShape(s, c.Key, params, &gk.EvaluationKey, rec); err != nil {
-			return err
-		}
 		if gk.GaloisElement != galEl || gk.NthRoot != nth {
 			return h.Failf("C04:GaloisKey:metadata", "GaloisElement=%d NthRoot=%d want %d %d", gk.GaloisElement, gk.NthRoot, galEl, nth)
 		}
-		if err := expandIfCompressed(params, &gk.EvaluationKey, c.Key); err != nil {
-			return err
-		}
-		evkSet = rlwe.NewMemEvaluationKeySet(nil, gk)
-		eval := rlwe.NewEvaluator(params, evkSet)
-		ct := freshCt(params, sB, s.CI, m, c.CtLevel, rng, c.Pat)
-		out = ct
-		if !c.InPlace {
-			out = newOut(params, c.CtLevel, c.Dirty, rng)
-		}
-		switch c.Op {
-		case "auto":
-			if err := eval.Automorphism(ct, galEl, out); err != nil {
-				return h.Failf("C04:auto:error", "Automorphism: %v", err)
-			}
-		case "autoHoisted":
-			eval.DecomposeNTT(c.CtLevel, c.Key.LevelP, c.Key.LevelP+1, ct.Value[1], ct.IsNTT, eval.BuffDecompQP)
-			if err := eval.AutomorphismHoisted(c.CtLevel, ct, eval.BuffDecompQP, galEl, out); err != nil {
-				return h.Failf("C04:autoHoisted:error", "AutomorphismHoisted: %v", err)
-			}
-		case "autoHoistedLazy":
-			eval.DecomposeNTT(c.CtLevel, c.Key.LevelP, c.Key.LevelP+1, ct.Value[1], ct.IsNTT, eval.BuffDecompQP)
-			ctQP := rlwe.NewElementExtended(params, 1, c.CtLevel, c.Key.LevelP)
-			*ctQP.MetaData = *ct.MetaData
-			if err := eval.AutomorphismHoistedLazy(c.CtLevel, ct, eval.BuffDecompQP, galEl, ctQP); err != nil {
-				return h.Failf("C04:autoHoistedLazy:error", "AutomorphismHoistedLazy: %v", err)
-			}
-			eval.ModDown(c.CtLevel, c.Key.LevelP, ctQP, out)
-			*out.MetaData = *ct.MetaData
-		}
-		want = ringAut(m, galEl, s.CI)
+		evk = &gk.EvaluationKey
+		eval = rlwe.NewEvaluator(params, rlwe.NewMemEvaluationKeySet(nil, gk))
 	default:
 		return h.Failf("C04:harness:op", "unknown op %q", c.Op)
 	}
+	if err := checkShape(s, c.Key, params, evk, rec); err != nil {
+		return err
+	}
+	if err := expandIfCompressed(params, evk, c.Key); err != nil {
+		return err
+	}
+	keyBefore, err := evk.GadgetCiphertext.MarshalBinary()
+	if err != nil {
+		return h.Failf("C04:harness:marshal", "%v", err)
+	}
 
-	// ---- oracle
-	if out.Level() != c.CtLevel {
-		return h.Failf("C04:"+c.Op+":level", "output level %d, want %d", out.Level(), c.CtLevel)
-	}
-	if out.IsNTT != s.NTT {
-		return h.Failf("C04:"+c.Op+":metadata", "output IsNTT=%v, parameters NTTFlag=%v", out.IsNTT, s.NTT)
-	}
-	got := phase(ringQ, out, sOut, s.CI)
-	diff := h.VecCenter(h.VecSub(got, want), Q)
-	norm := h.InfNorm(diff)
 	bound := new(big.Int)
 	if !((c.Op == "auto" || c.Op == "autoHoisted") && galEl == 1) { // galEl == 1: these two methods copy
-		bound = ksBound(s, c.Key, c.CtLevel, l1(sOut))
+		bound = ksBound(s, c.Key, lvl, l1(sOut))
 	}
-	bound.Add(bound, big.NewInt(inErr))
+	bound.Add(bound, big.NewInt(3))
 	disc := discriminating(bound, Q)
+	worst := new(big.Int)
+
+	// ---- one application of the key; round 2 re-uses the evaluator, the key and (out of place) the previous output as receiver
+	var prevOut *rlwe.Ciphertext
+	round := func(r int) error {
+		tag := c.Op
+		if r > 0 {
+			tag += ":second-use"
+		}
+		m := uniformVec(rng, N, Q)
+		var (
+			want []*big.Int
+			in   *rlwe.Ciphertext // input ciphertext (nil for the raw gadget products)
+			inCp *rlwe.Ciphertext
+			out  *rlwe.Ciphertext
+		)
+		receiver := func(level, degree int) *rlwe.Ciphertext {
+			if prevOut != nil && prevOut.Degree() == 1 {
+				return prevOut // an output with a real earlier life
+			}
+			o := newOut(params, level, degree, c.Dirty, rng)
+			return o
+		}
+		switch c.Op {
+		case "apply":
+			in = freshCt(params, sB, s.CI, m, lvl, rng, c.Pat, isNTT)
+			inCp = in.CopyNew()
+			out = in
+			if !c.InPlace {
+				out = receiver(outLevel, 1)
+			}
+			if err := eval.ApplyEvaluationKey(in, evk, out); err != nil {
+				return h.Failf("C04:apply:error", "ApplyEvaluationKey: %v", err)
+			}
+			want = m
+		case "gadget", "gadgetHoisted":
+			// raw gadget product of a polynomial: the result decrypts under sOut to cx * sIn
+			cxB := patVec(rng, N, qs, c.Pat)
+			out = receiver(lvl, 1)
+			out.IsNTT = isNTT
+			cx := bigToPoly(rl, cxB, isNTT)
+			cxCp := *cx.CopyNew()
+			if c.Op == "gadget" {
+				eval.GadgetProduct(lvl, cx, &evk.GadgetCiphertext, out)
+			} else {
+				eval.DecomposeNTT(lvl, c.Key.LevelP, c.Key.LevelP+1, cx, isNTT, eval.BuffDecompQP)
+				eval.GadgetProductHoisted(lvl, eval.BuffDecompQP, &evk.GadgetCiphertext, out)
+			}
+			if !cx.Equal(&cxCp) {
+				return h.Failf("C04:"+c.Op+":input-polynomial-modified", "cx differs after the call")
+			}
+			want = mulQ(cxB, sB, qs, s.CI)
+		case "relin":
+			// degree-2 ciphertext built by the harness: c1, c2 uniform, c0 = m + e - c1 s - c2 s^2
+			c1 := uniformVec(rng, N, Q)
+			c2 := patVec(rng, N, qs, c.Pat)
+			e := smallVec(rng, N, 3)
+			s2 := mulQ(sB, sB, qs, s.CI)
+			c0 := h.VecSub(h.VecAdd(m, e), h.VecAdd(mulQ(c1, sB, qs, s.CI), mulQ(c2, s2, qs, s.CI)))
+			in = rlwe.NewCiphertext(params, 2, lvl)
+			in.IsNTT = isNTT
+			for i, v := range [][]*big.Int{c0, c1, c2} {
+				in.Value[i].CopyLvl(lvl, bigToPoly(rl, v, isNTT))
+			}
+			inCp = in.CopyNew()
+			out = in
+			if !c.InPlace {
+				deg := 1
+				if c.OutDeg2 {
+					deg = 2
+				}
+				out = receiver(outLevel, deg)
+			}
+			if err := eval.Relinearize(in, out); err != nil {
+				return h.Failf("C04:relin:error", "Relinearize: %v", err)
+			}
+			if out.Degree() != 1 {
+				return h.Failf("C04:relin:degree", "output degree %d after Relinearize", out.Degree())
+			}
+			want = m
+		default: // automorphisms
+			in = freshCt(params, sB, s.CI, m, lvl, rng, c.Pat, isNTT)
+			inCp = in.CopyNew()
+			out = in
+			if !c.InPlace {
+				if c.Op == "autoHoistedLazy" {
+					out = receiver(lvl, 1) // ModDown is a low level routine: receiver at the level of the computation
+				} else {
+					out = receiver(outLevel, 1)
+				}
+			}
+			switch c.Op {
+			case "auto":
+				if err := eval.Automorphism(in, galEl, out); err != nil {
+					return h.Failf("C04:auto:error", "Automorphism: %v", err)
+				}
+			case "autoHoisted":
+				eval.DecomposeNTT(lvl, c.Key.LevelP, c.Key.LevelP+1, in.Value[1], in.IsNTT, eval.BuffDecompQP)
+				if err := eval.AutomorphismHoisted(lvl, in, eval.BuffDecompQP, galEl, out); err != nil {
+					return h.Failf("C04:autoHoisted:error", "AutomorphismHoisted: %v", err)
+				}
+			case "autoHoistedLazy":
+				eval.DecomposeNTT(lvl, c.Key.LevelP, c.Key.LevelP+1, in.Value[1], in.IsNTT, eval.BuffDecompQP)
+				lp := c.Key.LevelP + c.QPExtra // documented requirement: ctQP.LevelP >= key.LevelP
+				if lp > len(s.P)-1 {
+					lp = len(s.P) - 1
+				}
+				ctQP := rlwe.NewElementExtended(params, 1, lvl, lp)
+				*ctQP.MetaData = *in.MetaData
+				if err := eval.AutomorphismHoistedLazy(lvl, in, eval.BuffDecompQP, galEl, ctQP); err != nil {
+					return h.Failf("C04:autoHoistedLazy:error", "AutomorphismHoistedLazy: %v", err)
+				}
+				if c.InPlace {
+					inCp = nil // the division by P below overwrites the input on purpose
+				}
+				*out.MetaData = *in.MetaData // ModDown returns the result in the domain announced by the receiver
+				eval.ModDown(lvl, c.Key.LevelP, ctQP, out)
+			}
+			want = ringAut(m, galEl, s.CI)
+		}
+
+		// ---- oracle
+		if out.Level() != lvl {
+			return h.Failf("C04:"+tag+":level", "output level %d, want %d (receiver allocated at level %d)", out.Level(), lvl, outLevel)
+		}
+		if out.IsNTT != isNTT {
+			return h.Failf("C04:"+tag+":metadata", "output IsNTT=%v, input IsNTT=%v (parameters NTTFlag=%v)", out.IsNTT, isNTT, s.NTT)
+		}
+		if in != nil && inCp != nil && out != in && !in.Equal(inCp) {
+			return h.Failf("C04:"+tag+":input-ciphertext-modified", "the input ciphertext differs after an out-of-place call")
+		}
+		if keyAfter, _ := evk.GadgetCiphertext.MarshalBinary(); string(keyAfter) != string(keyBefore) {
+			return h.Failf("C04:"+tag+":key-modified", "the evaluation key differs after the call")
+		}
+		got := phase(ringQ, out, sOut, s.CI)
+		norm := h.InfNorm(h.VecCenter(h.VecSub(got, want), Q))
+		if norm.Cmp(worst) > 0 {
+			worst = norm
+		}
+		if norm.Cmp(bound) > 0 {
+			key := fmt.Sprintf("C04:%s:noise-above-bound", tag)
+			if ciModDownOverflow(s, c.Key, lvl) {
+				key = keyCIModDown
+			} else if digitsShort(s, c.Key, lvl) {
+				key = keyDigits + ":wrong-result"
+			} else if c.Key.LevelP == -1 && c.Key.W == 0 && lvl >= 1 && len(s.P) == 0 {
+				key = keyNoPw0
+			}
+			msg := fmt.Sprintf("|Dec(out) - expected|_inf = 2^%d > bound 2^%d (log2 Q = %d, N=%d, key=%+v, ct level %d, receiver level %d, galEl=%d, IsNTT=%v/NTTFlag=%v, op=%s)",
+				norm.BitLen(), bound.BitLen(), Q.BitLen(), N, c.Key, lvl, outLevel, galEl, isNTT, s.NTT, tag)
+			if rec.Known(key, msg) {
+				rec.Class("known=" + key)
+				return errKnown
+			}
+			return h.Failf(key, "%s", msg)
+		}
+		if out != in {
+			prevOut = out
+		}
+		return nil
+	}
+	rounds := 1
+	if c.Twice {
+		rounds = 2
+	}
+	for r := 0; r < rounds; r++ {
+		if skip, err := guardNoPofP(s, c.Key, rec, func() error { return round(r) }); skip || err == errKnown {
+			return nil
+		} else if err != nil {
+			return err
+		}
+	}
 
 	rec.Class("op=" + c.Op)
 	rec.Class(pClass(s))
 	rec.Class(wClass(c.Key.W))
 	rec.Classf("ci=%v", s.CI)
 	rec.Classf("ntt=%v", s.NTT)
+	rec.Classf("flipNTT=%v", c.FlipNTT)
 	rec.Classf("compressed=%v", c.Key.Compressed)
 	rec.Classf("dirtyOut=%v", c.Dirty && !c.InPlace)
+	rec.Classf("receiverAbove=%v", outLevel > lvl)
+	rec.Classf("twice=%v", c.Twice)
+	rec.Classf("keyNoPofP=%v", c.Key.LevelP == -1 && len(s.P) > 0)
+	if c.Op == "autoHoistedLazy" {
+		rec.Classf("qpExtra=%v", c.QPExtra > 0 && c.Key.LevelP < len(s.P)-1)
+	}
 	rec.Classf("discriminating=%v", disc)
 	lvlClass := "ct=key"
-	if c.CtLevel < c.Key.LevelQ {
+	if lvl < c.Key.LevelQ {
 		lvlClass = "ct<key"
 	}
 	keyClass := "key=max"
 	if c.Key.LevelQ < len(s.Q)-1 || c.Key.LevelP < len(s.P)-1 {
 		keyClass = "key<max"
 	}
+	if c.Key.LevelP == -1 && len(s.P) > 0 {
+		keyClass = "key-noP"
+	}
 	rec.Class(lvlClass)
 	rec.Class(keyClass)
-	tail := (c.CtLevel+1)%(maxInt(c.Key.LevelP, 0)+1) != 0
+	tail := (lvl+1)%(maxInt(c.Key.LevelP, 0)+1) != 0
 	rec.Classf("rnsTail=%v", tail)
 	rec.Note("log2bound", bound.BitLen())
-	rec.Note("log2noise", norm.BitLen())
+	rec.Note("log2noise", worst.BitLen())
 	rec.Note("log2Q", Q.BitLen())
 
-	if norm.Cmp(bound) > 0 {
-		key := fmt.Sprintf("C04:%s:noise-above-bound", c.Op)
-		if c.Key.LevelP == -1 && c.Key.W == 0 && c.CtLevel >= 1 {
-			// one defect whatever the operation: the RNS-only gadget product without auxiliary modulus decomposes limb 0 for every row
-			key = keyNoPw0
-		} else if ciModDownOverflow(s, c.Key, c.CtLevel) {
-			key = keyCIModDown
-		} else if digitsShort(s, c.Key, c.CtLevel) {
-			// one defect whatever the operation: too few base-2^w digits for a prime whose bit length exceeds round(log2 q)
-			key = keyDigits + ":wrong-result"
-		}
-		msg := fmt.Sprintf("|Dec(out) - expected|_inf = 2^%d > bound 2^%d (log2 Q = %d, N=%d, key=%+v, ct level %d, galEl=%d, op=%s)",
-			norm.BitLen(), bound.BitLen(), Q.BitLen(), N, c.Key, c.CtLevel, galEl, c.Op)
-		if rec.Known(key, msg) {
-			rec.Class("known=" + key)
-			return nil
-		}
-		return h.Failf(key, "%s", msg)
-	}
 	galClass := ""
 	if autoOp(c.Op) {
 		switch {
@@ -442,13 +554,15 @@ func runKS(c KSCase, rec *h.Rec) error {
 		rec.Class("gal=" + galClass)
 	}
 	nt := c.Key.LevelQ < len(s.Q)-1 || c.Key.LevelP < len(s.P)-1 || c.Key.W > 0 || sizeClass(append(append([]uint64{}, s.Q...), s.P...)) == "mixed" ||
-		c.CtLevel < c.Key.LevelQ || (autoOp(c.Op) && galEl != 5)
+		lvl < c.Key.LevelQ || (autoOp(c.Op) && galEl != 5)
 	if disc && nt {
-		rec.NonTrivial(fmt.Sprintf("%s|N%d|ci%v|ntt%v|%s|%s|%s|%s|%s|tail%v|comp%v|%s|inpl%v", c.Op, N, s.CI, s.NTT, pClass(s), wClass(c.Key.W),
-			sizeClass(s.Q), lvlClass, keyClass, tail, c.Key.Compressed, galClass, c.InPlace))
+		rec.NonTrivial(fmt.Sprintf("%s|N%d|ci%v|ntt%v|flip%v|%s|%s|%s|%s|%s|tail%v|comp%v|%s|inpl%v|above%v|twice%v", c.Op, N, s.CI, s.NTT, c.FlipNTT, pClass(s), wClass(c.Key.W),
+			sizeClass(s.Q), lvlClass, keyClass, tail, c.Key.Compressed, galClass, c.InPlace, outLevel > lvl, c.Twice))
 	}
 	return nil
 }
+
+var errKnown = fmt.Errorf("listed known finding")
 
 func maxInt(a, b int) int {
 	if a > b {
